@@ -281,7 +281,9 @@ def run(res, tier, seed, model_ok, search):
         per = {}
         for r in ({v["sel"] for v in views} | ({newsp["sel"]} if (newsp and not excl_is_new) else set())):
             rv = [v for v in mviews if v["sel"] == r]
-            pp = exact_parts(rv)
+            # ties are looked for in what the code actually sums: in the REPLACE shape the order is dropped (finding F1b)
+            tv = [v for v in rv if v["id"] != specs[0]["id"]] if excl_is_new else rv
+            pp = exact_parts(tv)
             tie_m += sum(common.is_tie2(x) for x in (pp[0], pp[1], sum((t[0] for t in pp[2] if t[0] < 0), Fraction(0)),
                                                        sum((t[1] for t in pp[2] if t[1] < 0), Fraction(0))))
             per[r] = worst(rv)
